@@ -78,12 +78,50 @@ package registry
 //@   modifies H:registry.Package#, M:string:*registry.Package#
 //@   ensures imprt != nil ==> imprt.pkg != nil
 
+//@ func registry.Registry.Imports$1
+//@   props C11 C14
+//@   safety C19
+//@   requires 0 <= i && i < len(imports) && 0 <= j && j < len(imports)
+//@   requires forall(k, 0 <= k && k < len(imports) ==> imports[k] != nil && imports[k].pkg != nil)
+//@   ensures by-path: r == (pathOf(imports[i]) < pathOf(imports[j]))
+
 //@ func registry.Registry.Imports -> out
-//@   trusted contract assumed here; verified under C11/C14 below
+//@   props C11 C14
+//@   safety C19
+//@   requires wfK(r)
 //@   modifies A:*registry.Package#
+//@   loop 1 invariant members: forall(i, 0 <= i && i < len(imports) ==> imports[i] != nil && imports[i].pkg != nil && visited[pathOf(imports[i])] && r.imports[pathOf(imports[i])] == imports[i])
+//@   loop 1 invariant distinct: forall(i, j, 0 <= i && i < j && j < len(imports) ==> pathOf(imports[i]) != pathOf(imports[j]))
+//@   loop 1 invariant complete: forall(string(k), visited[k] ==> exists(i, 0 <= i && i < len(imports) && imports[i] == r.imports[k]))
+//@   ensures sorted: forall(i, j, 0 <= i && i < j && j < len(out) ==> !(pathOf(out[j]) < pathOf(out[i])))
+//@   ensures distinct-paths: forall(i, j, 0 <= i && i < j && j < len(out) ==> pathOf(out[i]) != pathOf(out[j]))
+//@   ensures only-registered: forall(i, 0 <= i && i < len(out) ==> dom(r.imports, pathOf(out[i])) && r.imports[pathOf(out[i])] == out[i])
+//@   ensures all-registered: forall(string(k), dom(r.imports, k) ==> exists(i, 0 <= i && i < len(out) && out[i] == r.imports[k]))
 
 //@ func registry.MethodScope.AddVar -> v
 //@   trusted contract assumed here; its verification is tracked under C12
 //@   modifies H:registry.Package#, M:string:*registry.Package#, H:registry.Var#, H:registry.MethodScope#, A:*registry.Var#, M:string:bool#
 //@   ensures v != nil && fresh(v) && v.vr == vr
 //@   ensures forall((*Var)(p), old(allocated(p)) ==> p.vr == old(p.vr))
+
+//@ -- registry invariant (K): every key of the import map is the canonical path of a non-nil
+//@ -- entry with a package object, and is never the destination package itself
+//@ define wfK(r) = forall(string(k), dom(r.imports, k) ==> r.imports[k] != nil && r.imports[k].pkg != nil && canon(r.imports[k].pkg) == k && k != r.moqPkgPath)
+
+//@ func registry.MethodScope.searchVar -> v, ok
+//@   props C12
+//@   safety C19
+//@   requires forall(k, 0 <= k && k < len(m.vars) ==> m.vars[k] != nil)
+//@   loop 1 invariant idx: rangeIndex >= -1
+//@   loop 1 invariant none-so-far: forall(k, 0 <= k && k <= rangeIndex ==> m.vars[k].Name != name)
+//@   ensures found: ok ==> v != nil && v.Name == name && exists(k, 0 <= k && k < len(m.vars) && m.vars[k] == v && forall(j, 0 <= j && j < k ==> m.vars[j].Name != name))
+//@   ensures not-found: !ok ==> v == nil && forall(k, 0 <= k && k < len(m.vars) ==> m.vars[k].Name != name)
+
+//@ func registry.Registry.searchImport -> p, ok
+//@   props C12 C14
+//@   safety C19
+//@   requires forall(string(k), dom(r.imports, k) ==> r.imports[k] != nil && r.imports[k].pkg != nil)
+//@   loop 1 invariant none-visited-matches: forall(string(k), visited[k] ==> qual(r.imports[k]) != name)
+//@   ensures found: ok ==> p != nil && qual(p) == name && exists(string(k), dom(r.imports, k) && r.imports[k] == p)
+//@   ensures not-found: !ok ==> p == nil && forall(string(k), dom(r.imports, k) ==> qual(r.imports[k]) != name)
+//@   ensures{C14} unique-hit: ok && (forall(string(a), string(b), dom(r.imports, a) && dom(r.imports, b) && a != b ==> qual(r.imports[a]) != qual(r.imports[b]))) ==> forall(string(k), dom(r.imports, k) && qual(r.imports[k]) == name ==> r.imports[k] == p)
